@@ -14,6 +14,25 @@ def plan(tier, seed):
     return [{'mode': 'repotests', 'cost': 3000}] + [{'mode': 'docs', 'slice': i, 'cost': 3000} for i in range(8)] + _histcheck.plan(lambda t: (genhist.n_core_forward_first(t, 2) * 2 + genhist.n_core_additions(t, genhist.nadd_for(t, tier)) * 4 + genhist.n_core_mixed(t, 1 if tier == 'quick' else 2) * 2 + 400))
 
 
+def build_nested(el, lib, docs, rnd, order_mode, c):
+    """the document assembled through the API, the children of every level supplied in document / reversed / shuffled order"""
+    import xml.etree.ElementTree as ET
+    flat = ET.Element(el.tag, dict(el.attrib))
+    flat.text = el.text
+    obj = docs.build_api(flat, lib, check=True)
+    kids = list(el)
+    if order_mode == 'shuffle':
+        rnd.shuffle(kids)
+    elif order_mode == 'reverse':
+        kids.reverse()
+    for k in kids:
+        child = build_nested(k, lib, docs, rnd, order_mode, c)
+        r = lib.call(obj.add_child, child)
+        if r[0] == 'exc':
+            c['additions_refused'] += 1      # an out-of-order child may be refused (C12 decides that); go on without it
+    return obj
+
+
 def run_docs(shard, tier, seed):
     """nested documents assembled through the API with the children of every level supplied in a shuffled order: every
     checked node of every serialisation that returns is validated against the reference content model"""
@@ -29,21 +48,7 @@ def run_docs(shard, tier, seed):
     samples = []
 
     def build(el, order_mode):
-        cls = lib.cls_of_element(el.tag)
-        flat = ET.Element(el.tag, dict(el.attrib))
-        flat.text = el.text
-        obj = docs.build_api(flat, lib, check=True)
-        kids = list(el)
-        if order_mode == 'shuffle':
-            rnd.shuffle(kids)
-        elif order_mode == 'reverse':
-            kids.reverse()
-        for k in kids:
-            child = build(k, order_mode)
-            r = lib.call(obj.add_child, child)
-            if r[0] == 'exc':
-                c['additions_refused'] += 1      # an out-of-order child may be refused (C12 decides that); go on without it
-        return obj
+        return build_nested(el, lib, docs, rnd, order_mode, c)
 
     names = [n for i, n in enumerate(ref.ELEMENT_NAMES) if i % 8 == shard['slice'] and ref.eltype(n) in ref.DFAS]
     per = 3 if tier == 'quick' else 30
